@@ -111,7 +111,15 @@ pub fn drive_hash(t: &mut Tracer, tier: &str, seed: u64, plan: Option<String>) {
     }
     for i in 0..4 { masters.push((sparse_scalar(&mut rng, i), rng.bytes(4 + i), ["enc", "exch", "sign"][i % 3])); }
     for v in &planv {
-        if v["kind"] == "zerokey" || v["kind"] == "t2key" { masters.push((arr(&v["k"]), arr(&v["idb"]), match v["hid"].as_u64().unwrap() { 1 => "sign", 3 => "enc", _ => "exch" })); }
+        if v["kind"] == "smallh1" && v["found"] == 1 {
+            // an identity whose H1 has a leading zero byte (searched by the specification): the hash itself and an extraction that uses it
+            let (idv, hid) = (arr(&v["idb"]), v["hid"].as_u64().unwrap() as u8);
+            let id2 = idv.clone();
+            let o = guard_plain(move || gm_sm9::key::verif_hash1(&id2, hid));
+            t.emit(&sess(), "sm9.hash1", json!({"prop": "C16", "idb": bytes(&idv), "hid": hid, "out": bytes(&o.ok().map(|x| ub(x)).unwrap_or(vec![0u8; 32])), "outcome": o.name(), "detail": o.detail()}));
+            masters.push((scalar(&mut rng), idv, match hid { 1 => "sign", 3 => "enc", _ => "exch" }));
+        }
+        if v["kind"] == "zerokey" || v["kind"] == "t2key" || v["kind"] == "invkey" { masters.push((arr(&v["k"]), arr(&v["idb"]), match v["hid"].as_u64().unwrap() { 1 => "sign", 3 => "enc", _ => "exch" })); }
     }
     for (k, id, kind) in masters {
         let (k2, id2) = (k.clone(), id.clone());
@@ -184,6 +192,25 @@ pub fn drive_sign(t: &mut Tracer, tier: &str, seed: u64, plan: Option<String>) {
                 verify_event(t, &sess(), &c, &c.msk.ppubs, false, &id, Some(&g), &m, &ub(&h), &s, Some(&r), "none");
                 if valid.len() < (if thorough { 6 } else { 1 }) { valid.push((sign_ctx(&c.ks), id.clone(), m.clone(), h, s, r)); }
             }
+        }
+    }
+    // the ends of the range of r: 1 and N - 2
+    {
+        let c = sign_ctx(&scalar(&mut rng));
+        for r in [b32(&be_add_small(&vec![0u8; 32], 1)), b32(&be_add_small(&nhex, -2))] {
+            if let Some((h, s, rr)) = sign_event(t, &sess(), &c, b"edge-r", None, b"ends of the range of r", vec![r]) {
+                verify_event(t, &sess(), &c, &c.msk.ppubs, false, b"edge-r", None, b"ends of the range of r", &ub(&h), &s, Some(&rr), "none");
+            }
+        }
+    }
+    // an identity whose H1(ID || 01) has a leading zero byte, and master keys for which t2 or (H1 + ks)^-1 is a short value (all from the plan)
+    for v in read_plan(&plan) {
+        let (kind, hid) = (v["kind"].as_str().unwrap_or(""), v["hid"].as_u64().unwrap_or(0));
+        if hid != 1 || !(kind == "smallh1" && v["found"] == 1 || kind == "t2key" || kind == "invkey") { continue; }
+        let c = sign_ctx(&if kind == "smallh1" { scalar(&mut rng) } else { arr(&v["k"]) });
+        let idv = arr(&v["idb"]);
+        if let Some((h, s, r)) = sign_event(t, &sess(), &c, &idv, None, b"crafted identity / master key", vec![]) {
+            verify_event(t, &sess(), &c, &c.msk.ppubs, false, &idv, None, b"crafted identity / master key", &ub(&h), &s, Some(&r), "none");
         }
     }
     // long identities (around 250 bytes: fixed-size scratch buffers for 01 || ID || hid || ct)
@@ -285,6 +312,26 @@ pub fn drive_encrypt(t: &mut Tracer, tier: &str, seed: u64, plan: Option<String>
         let rs = b32(&sparse_scalar(&mut rng, w % 2));
         if let Some((ct, r)) = encrypt_event(t, &sess(), &annex, b"Bob", None, b"sparse nonce", vec![rs]) {
             decrypt_event(t, &sess(), &annex, b"Bob", b"Bob", &ct, Some(&r), "none");
+        }
+    }
+    // the ends of the range of r: 1 and N - 2
+    {
+        let c = enc_ctx(&scalar(&mut rng));
+        let nhex = hexb(N9_HEX);
+        for r in [b32(&be_add_small(&vec![0u8; 32], 1)), b32(&be_add_small(&nhex, -2))] {
+            if let Some((ct, rr)) = encrypt_event(t, &sess(), &c, b"edge-r", None, b"ends of the range of r", vec![r]) {
+                decrypt_event(t, &sess(), &c, b"edge-r", b"edge-r", &ct, Some(&rr), "none");
+            }
+        }
+    }
+    // an identity whose H1(ID || 03) has a leading zero byte, and master keys for which t2 or (H1 + ke)^-1 is a short value (all from the plan)
+    for v in read_plan(&plan) {
+        let (kind, hid) = (v["kind"].as_str().unwrap_or(""), v["hid"].as_u64().unwrap_or(0));
+        if hid != 3 || !(kind == "smallh1" && v["found"] == 1 || kind == "t2key" || kind == "invkey") { continue; }
+        let c = enc_ctx(&if kind == "smallh1" { scalar(&mut rng) } else { arr(&v["k"]) });
+        let idv = arr(&v["idb"]);
+        if let Some((ct, r)) = encrypt_event(t, &sess(), &c, &idv, None, b"crafted identity / master key", vec![]) {
+            decrypt_event(t, &sess(), &c, &idv, &idv, &ct, Some(&r), "none");
         }
     }
     // long identities (around 250 bytes), incl. two that share their first 250 bytes (a truncating H1 would give them the same key)
@@ -430,6 +477,15 @@ pub fn drive_kex(t: &mut Tracer, tier: &str, seed: u64) {
         let ke = scalar(&mut rng);
         let (ra, rb) = (b32(&sparse_scalar(&mut rng, w % 2)), b32(&sparse_scalar(&mut rng, (w + 1) % 2)));
         run(t, sess(), &ke, b"alice", b"bob", 24, vec![ra], vec![rb], "none", "none", &mut rng);
+    }
+    // the ends of the ephemeral range: r = 1 (R = Q itself: a "trivial scalar" shortcut must still return the same POINT) and r = N - 2
+    {
+        let nhex = hexb(N9_HEX);
+        let (one, top) = (b32(&be_add_small(&vec![0u8; 32], 1)), b32(&be_add_small(&nhex, -2)));
+        for (sa, sb) in [(one, top), (top, one), (one, one)] {
+            let ke = scalar(&mut rng);
+            run(t, sess(), &ke, b"alice", b"bob", 16, vec![sa], vec![sb], "none", "none", &mut rng);
+        }
     }
     // the generator first offers candidates in [N, p) and the extremes (N + 5, N, N - 1, 0, 2^256 - 1: none may be used), then a valid one: both
     // parties must still derive the same key from the scalar that was finally accepted
@@ -776,6 +832,21 @@ pub fn drive_arith(t: &mut Tracer, tier: &str, seed: u64) {
                 for f in ["equals", "add", "sub"] { g1op(t, sess(), f, &a, &b, &zero32, cls); }
             }
         }
+        // the identity in OTHER representations than Point::zero() = (1, 1, 0): P - P, -O, [N]P, (t^2, t^3, 0) -- as operands of every operation,
+        // and compared with each other (each of them denotes the same point)
+        if i == 0 {
+            use gm_sm9::fields::fp::mont_mul;
+            let t3 = gm_sm9::fields::fp::fp_to_mont(&[3, 0, 0, 0]);
+            let infs: Vec<Point> = vec![pj.point_sub(&pj), Point::zero().point_neg(), pa.point_mul(&u(&nhex)), Point { x: mont_mul(&t3, &t3), y: mont_mul(&mont_mul(&t3, &t3), &t3), z: [0, 0, 0, 0] }];
+            for (k, o) in infs.iter().enumerate() {
+                let o2 = infs[(k + 1) % infs.len()];
+                for (a, b) in [(*o, pj), (pa, *o), (*o, o2), (*o, inf), (inf, *o)] {
+                    for f in ["add", "sub", "equals"] { g1op(t, sess(), f, &a, &b, &zero32, "otherO"); }
+                }
+                g1op(t, sess(), "dbl", o, o, &zero32, "unary-otherO"); g1op(t, sess(), "neg", o, o, &zero32, "unary-otherO");
+                g1op(t, sess(), "mul", o, o, &scalars[1 % scalars.len()], "scalar-otherO");
+            }
+        }
         for (j, s) in scalars.iter().enumerate() {
             if thorough || (i + j) % 2 == 0 { g1op(t, sess(), "mul", if j % 2 == 0 { &pa } else { &pj }, &pa, s, "scalar"); }
             if i == 0 { g1op(t, sess(), "gmul", &g1, &g1, s, "scalar"); }
@@ -824,6 +895,21 @@ pub fn drive_arith(t: &mut Tracer, tier: &str, seed: u64) {
                     }
                     g2op(t, sess(), "dbl", &ts, &ts, &zero32, &cls); g2op(t, sess(), "mul", &ts, &ts, &scalars[1 % scalars.len()], &cls);
                 }
+            }
+        }
+        if i == 0 {
+            let l = [vec![0u8; 32], be_add_small(&vec![0u8; 32], 3)].concat();
+            let mut tz = g2_rerand(&g2, &l); tz.z = TwistPoint::zero().z;                  // (9 x, 27 y, 0)
+            let tz2 = TwistPoint { x: verif::fp2_from_bytes(&verif::fp2_op("mul", &l, &l)), y: verif::fp2_from_bytes(&verif::fp2_op("mul", &verif::fp2_op("mul", &l, &l), &l)), z: TwistPoint::zero().z };   // (t^2, t^3, 0)
+            let infs: Vec<TwistPoint> = vec![tj.point_sub(&tj), TwistPoint::zero().point_neg(), g2.point_mul(&u(&nhex)), tz2];
+            let _ = tz;
+            for (k, o) in infs.iter().enumerate() {
+                let o2 = infs[(k + 1) % infs.len()];
+                for (a, b) in [(*o, tj), (g2, *o), (*o, o2), (*o, tinf), (tinf, *o)] {
+                    for f in ["add", "add_full", "sub", "equals"] { g2op(t, sess(), f, &a, &b, &zero32, "otherO"); }
+                }
+                g2op(t, sess(), "dbl", o, o, &zero32, "unary-otherO"); g2op(t, sess(), "neg", o, o, &zero32, "unary-otherO");
+                g2op(t, sess(), "mul", o, o, &scalars[1 % scalars.len()], "scalar-otherO");
             }
         }
         for a in [g2, tj, tinf] { g2op(t, sess(), "dbl", &a, &a, &zero32, "unary"); g2op(t, sess(), "neg", &a, &a, &zero32, "unary"); }
@@ -879,7 +965,7 @@ pub fn rng_ops_sm9(t: &mut Tracer, sess: &str, proc_id: u32, count: usize, injec
         let draws: Vec<Value> = log.iter().map(|e| json!({"c": bytes(&e.candidate), "a": if e.accepted { 1 } else { 0 }})).collect();
         if !inject && o.name() == "ok" { *real += 1; }
         let mut f = json!({"prop": "C14", "lib": "sm9", "kind": kind, "proc": proc_id, "scripted": if inject { 1 } else { 0 }, "chk": "none", "draws": draws, "outcome": o.name()});
-        if let (Some(v), true) = (o.ok(), i % 35 < 14 || inject) { for (k, x) in v.as_object().unwrap() { f[k] = x.clone(); } }
+        if let (Some(v), true) = (o.ok(), (i < 70 && i % 35 < 14) || inject) { for (k, x) in v.as_object().unwrap() { f[k] = x.clone(); } }
         t.emit(sess, "rng.op", f);
     }
     // an encryption whose FIRST scalar gives an all-zero K1 (ke / ID of the Annex, M = 5A, r1 = Annex r + 50): step A6 goes back to A2 -- the
